@@ -17,7 +17,7 @@ def dotted(node):
     if isinstance(node, ast.Name):
         parts.append(node.id)
         return '.'.join(reversed(parts))
-    if isinstance(node, ast.Call) and isinstance(node.func, ast.Name) and node.func.id == 'super' and parts:
+    if isinstance(node, ast.Call) and isinstance(node.func, ast.Name) and node.func.id == 'super':
         parts.append('super()')
         return '.'.join(reversed(parts))
     return None
